@@ -176,6 +176,199 @@ theorem run_wrel (evs : List (Ev α)) (j : Nat) (st st' : St α) (h : WRel j st 
     exact this
 
 
+theorem closedAt_append (j : Nat) (a b : List (Ev α)) :
+    closedAt j (a ++ b) = (closedAt j a && closedAt (endDepth j a) b) := by
+  induction a generalizing j with
+  | nil => simp [closedAt, endDepth]
+  | cons ev t ih => cases ev <;> simp [closedAt, endDepth, ih, Bool.and_assoc]
+
+theorem endDepth_append (j : Nat) (a b : List (Ev α)) :
+    endDepth j (a ++ b) = endDepth (endDepth j a) b := by
+  induction a generalizing j with
+  | nil => simp [endDepth]
+  | cons ev t ih => cases ev <;> simp [endDepth, ih]
+
+mutual
+theorem endDepth_visit : ∀ (n : Node α) (j : Nat), endDepth j (visit n) = j
+  | .mk tag name loc kids, j => by
+    have hk := fun j => endDepth_visitList kids j
+    match kids with
+    | [] => cases tag <;> cases name <;> simp [visit, visitList, usesList, endDepth, endDepth_append]
+    | [k1] =>
+      have h1 := fun j => endDepth_visit k1 j
+      cases tag <;> cases name <;> simp_all [visit, visitList, usesList, endDepth, endDepth_append]
+    | [k1, k2] =>
+      have h1 := fun j => endDepth_visit k1 j
+      have h2 := fun j => endDepth_visit k2 j
+      have v2 := fun j => endDepth_uses k2 j
+      cases tag <;> cases name <;> simp_all [visit, visitList, usesList, endDepth, endDepth_append]
+    | [k1, k2, k3] =>
+      have h1 := fun j => endDepth_visit k1 j
+      have h2 := fun j => endDepth_visit k2 j
+      have h3 := fun j => endDepth_visit k3 j
+      have v2 := fun j => endDepth_uses k2 j
+      have v3 := fun j => endDepth_uses k3 j
+      cases tag <;> cases name <;> simp_all [visit, visitList, usesList, endDepth, endDepth_append]
+    | [k1, k2, k3, k4] =>
+      have h1 := fun j => endDepth_visit k1 j
+      have h2 := fun j => endDepth_visit k2 j
+      have h3 := fun j => endDepth_visit k3 j
+      have h4 := fun j => endDepth_visit k4 j
+      have v2 := fun j => endDepth_uses k2 j
+      have v3 := fun j => endDepth_uses k3 j
+      have v4 := fun j => endDepth_uses k4 j
+      cases tag <;> cases name <;> simp_all [visit, visitList, usesList, endDepth, endDepth_append]
+    | k1 :: k2 :: k3 :: k4 :: k5 :: ks =>
+      have h1 := fun j => endDepth_visit k1 j
+      have u := fun j => endDepth_usesList (k2 :: k3 :: k4 :: k5 :: ks) j
+      cases tag <;> cases name <;> simp_all [visit, endDepth, endDepth_append]
+theorem endDepth_visitList : ∀ (ks : List (Node α)) (j : Nat), endDepth j (visitList ks) = j
+  | [], j => by simp [visitList, endDepth]
+  | k :: ks, j => by simp [visitList, endDepth_append, endDepth_visit k, endDepth_visitList ks]
+theorem endDepth_uses : ∀ (n : Node α) (j : Nat), endDepth j (uses n) = j
+  | .mk tag name loc kids, j => by
+    have hu := endDepth_usesList kids j
+    cases tag <;> cases name <;> simp_all [uses, endDepth]
+theorem endDepth_usesList : ∀ (ks : List (Node α)) (j : Nat), endDepth j (usesList ks) = j
+  | [], j => by simp [usesList, endDepth]
+  | k :: ks, j => by simp [usesList, endDepth_append, endDepth_uses k, endDepth_usesList ks]
+end
+
+mutual
+/-- below the top level (depth ≥ 1) every fragment is closed -/
+theorem closed_visit_pos : ∀ (n : Node α) (j : Nat), closedAt (j + 1) (visit n) = true
+  | .mk tag name loc kids, j => by
+    have hk := fun j => closed_visitList_pos kids j
+    match kids with
+    | [] => cases tag <;> cases name <;> simp [visit, visitList, usesList, closedAt, closedAt_append]
+    | [k1] =>
+      have h1 := fun j => closed_visit_pos k1 j
+      have e1 := fun j => endDepth_visit k1 j
+      cases tag <;> cases name <;>
+        simp_all [visit, visitList, usesList, closedAt, closedAt_append, endDepth, endDepth_append]
+    | [k1, k2] =>
+      have h1 := fun j => closed_visit_pos k1 j
+      have h2 := fun j => closed_visit_pos k2 j
+      have e1 := fun j => endDepth_visit k1 j
+      have e2 := fun j => endDepth_visit k2 j
+      have v2 := fun j => closed_uses k2 j
+      have w2 := fun j => endDepth_uses k2 j
+      cases tag <;> cases name <;>
+        simp_all [visit, visitList, usesList, closedAt, closedAt_append, endDepth, endDepth_append]
+    | [k1, k2, k3] =>
+      have h1 := fun j => closed_visit_pos k1 j
+      have h2 := fun j => closed_visit_pos k2 j
+      have h3 := fun j => closed_visit_pos k3 j
+      have e1 := fun j => endDepth_visit k1 j
+      have e2 := fun j => endDepth_visit k2 j
+      have e3 := fun j => endDepth_visit k3 j
+      have v2 := fun j => closed_uses k2 j
+      have v3 := fun j => closed_uses k3 j
+      have w2 := fun j => endDepth_uses k2 j
+      have w3 := fun j => endDepth_uses k3 j
+      cases tag <;> cases name <;>
+        simp_all [visit, visitList, usesList, closedAt, closedAt_append, endDepth, endDepth_append]
+    | [k1, k2, k3, k4] =>
+      have h1 := fun j => closed_visit_pos k1 j
+      have h2 := fun j => closed_visit_pos k2 j
+      have h3 := fun j => closed_visit_pos k3 j
+      have h4 := fun j => closed_visit_pos k4 j
+      have e1 := fun j => endDepth_visit k1 j
+      have e2 := fun j => endDepth_visit k2 j
+      have e3 := fun j => endDepth_visit k3 j
+      have e4 := fun j => endDepth_visit k4 j
+      have v2 := fun j => closed_uses k2 j
+      have v3 := fun j => closed_uses k3 j
+      have v4 := fun j => closed_uses k4 j
+      have w2 := fun j => endDepth_uses k2 j
+      have w3 := fun j => endDepth_uses k3 j
+      have w4 := fun j => endDepth_uses k4 j
+      cases tag <;> cases name <;>
+        simp_all [visit, visitList, usesList, closedAt, closedAt_append, endDepth, endDepth_append]
+    | k1 :: k2 :: k3 :: k4 :: k5 :: ks =>
+      have h1 := fun j => closed_visit_pos k1 j
+      have e1 := fun j => endDepth_visit k1 j
+      have u := fun j => closed_usesList (k2 :: k3 :: k4 :: k5 :: ks) j
+      have eu := fun j => endDepth_visitList (k1 :: k2 :: k3 :: k4 :: k5 :: ks) j
+      cases tag <;> cases name <;>
+        simp_all [visit, closedAt, closedAt_append, endDepth, endDepth_append]
+theorem closed_visitList_pos : ∀ (ks : List (Node α)) (j : Nat), closedAt (j + 1) (visitList ks) = true
+  | [], j => by simp [visitList, closedAt]
+  | k :: ks, j => by
+    simp [visitList, closedAt_append, closed_visit_pos k j, endDepth_visit k, closed_visitList_pos ks j]
+theorem closed_uses : ∀ (n : Node α) (j : Nat), closedAt j (uses n) = true
+  | .mk tag name loc kids, j => by
+    have hu := closed_usesList kids j
+    cases tag <;> cases name <;> simp_all [uses, closedAt]
+theorem closed_usesList : ∀ (ks : List (Node α)) (j : Nat), closedAt j (usesList ks) = true
+  | [], j => by simp [usesList, closedAt]
+  | k :: ks, j => by
+    simp [usesList, closedAt_append, closed_uses k j, endDepth_uses k, closed_usesList ks j]
+end
+
+mutual
+/-- expression-like trees: nothing is bound at the tree's own top level (blocks, lambdas and match
+cases open their own scope; `if let` binds inside its own scope; patterns, declarations and
+parameters are excluded) -/
+def isExpr : Node α → Bool
+  | .mk tag _ _ kids =>
+    match tag, kids with
+    | .block, _ => true
+    | .lambda, _ => true
+    | .case, [_, _] => true
+    | .ifGuard, [_, g, _, e2] => isExpr g && isExpr e2
+    | .decl, _ => false
+    | .pId, _ => false
+    | .param, _ => false
+    | .pOr, _ => false
+    | _, ks => allExpr ks
+def allExpr : List (Node α) → Bool
+  | [] => true
+  | k :: ks => isExpr k && allExpr ks
+end
+
+mutual
+theorem closed_visit_expr : ∀ (n : Node α), isExpr n = true → closedAt 0 (visit n) = true
+  | .mk tag name loc kids, h => by
+    have hk := closed_visitList_expr kids
+    have hp := closed_visitList_pos kids 0
+    have he := fun j => endDepth_visitList kids j
+    match kids with
+    | [] => cases tag <;> cases name <;> simp_all [visit, visitList, closedAt, closedAt_append, isExpr, allExpr, endDepth, endDepth_append]
+    | [k1] =>
+      cases tag <;> cases name <;>
+        simp_all [visit, visitList, closedAt, closedAt_append, isExpr, allExpr, endDepth, endDepth_append]
+    | [k1, k2] =>
+      have p1 := closed_visit_pos k1 0
+      have p2 := closed_visit_pos k2 0
+      have e1 := fun j => endDepth_visit k1 j
+      have e2 := fun j => endDepth_visit k2 j
+      cases tag <;> cases name <;>
+        simp_all [visit, visitList, closedAt, closedAt_append, isExpr, allExpr, endDepth, endDepth_append]
+    | [k1, k2, k3] =>
+      cases tag <;> cases name <;>
+        simp_all [visit, visitList, closedAt, closedAt_append, isExpr, allExpr, endDepth, endDepth_append]
+    | [k1, k2, k3, k4] =>
+      have p1 := closed_visit_pos k1 0
+      have p3 := closed_visit_pos k3 0
+      have x2 := closed_visit_expr k2
+      have x4 := closed_visit_expr k4
+      have e1 := fun j => endDepth_visit k1 j
+      have e2 := fun j => endDepth_visit k2 j
+      have e3 := fun j => endDepth_visit k3 j
+      have e4 := fun j => endDepth_visit k4 j
+      cases tag <;> cases name <;>
+        simp_all [visit, visitList, closedAt, closedAt_append, isExpr, allExpr, endDepth, endDepth_append]
+    | k1 :: k2 :: k3 :: k4 :: k5 :: ks =>
+      cases tag <;> cases name <;>
+        simp_all [visit, closedAt, closedAt_append, isExpr, endDepth, endDepth_append]
+theorem closed_visitList_expr : ∀ (ks : List (Node α)), allExpr ks = true → closedAt 0 (visitList ks) = true
+  | [], _ => by simp [visitList, closedAt]
+  | k :: ks, h => by
+    simp only [allExpr, Bool.and_eq_true] at h
+    simp [visitList, closedAt_append, closed_visit_expr k h.1, endDepth_visit k, closed_visitList_expr ks h.2]
+end
+
 theorem wrap_sim (a : List (Ev α)) (hc : closedAt 0 a = true) (he : endDepth 0 a = 0) (loc : Nat)
     (st : St α) (hw : WF st) :
     (run ([.push] ++ a ++ [.pop .scoped loc]) st).locals = (run a st).locals ∧
